@@ -61,7 +61,7 @@ func TestC13(t *testing.T) {
 	runProp(t, "C13", checkC13, func(t *rapid.T) *Case {
 		c := genTrieCase(t, trieGenOpt{})
 		c.Opt = OptSpec{c.Opt[0], 0, 0, 0}
-		c.Scrib = rapid.IntRange(0, 3).Draw(t, "spelling")
+		c.Scrib = rapid.IntRange(0, 31).Draw(t, "spelling")
 		genExtra(t, c)
 		return c
 	})
